@@ -200,6 +200,55 @@ def run(facts, tier):
                 pc.violate(f"{fn}/order", f"in `{fn}` the scopes are not popped over the reversed sequence (`.rev()` missing): the pop assertions compare against the most recent push", where=j["sp"])
     rules.append(pc.finish())
 
+    # ---- S5.d spans: what the lexer keeps as remaining input is always a slice of the filter text
+    sd = Rule("S5.d", "diagnostic spans lie inside the filter text: the lexer's remaining input (from which error locations are taken) is only ever assigned slices of the input, never a string literal (a literal has an address outside the text, and the span computation would underflow)", floor=10)
+    DEFAULTING = re.compile(r"^core::(option::Option::<T>|result::Result::<T, E>)::(unwrap_or|map_or|unwrap_or_else|map_or_else|or|unwrap_or_default)$")
+    nassign = 0
+    for j in facts.mir("jaq_core"):
+        if not j["def"].startswith("jaq_core::load::lex::Lexer::"):
+            continue
+        b = Body(j)
+        # locals that (may) hold a string literal: constants of type &str, through moves, aggregates, field
+        # projections and the default argument of Option/Result combinators
+        lit = {}
+        changed = True
+        def is_str_const(o):
+            k = o.get("k") if isinstance(o, dict) else None
+            return bool(k) and k.get("ty", "").replace("'static ", "") in ("&str",) and "txt" in k
+        while changed:
+            changed = False
+            for bb in b.bbs:
+                for s in bb["st"]:
+                    if s.get("k") != "A":
+                        continue
+                    r = s["r"]
+                    src = None
+                    if r["k"] in ("Use", "Cast") and (is_str_const(r["o"]) or op_local(r["o"]) in lit):
+                        src = True
+                    elif r["k"] == "Agg" and any(is_str_const(o) or op_local(o) in lit for o in r["ops"]):
+                        src = True
+                    elif r["k"] == "Ref" and r["p"]["l"] in lit:
+                        src = True
+                    if src and s["p"]["l"] not in lit and not (s["p"].get("pr")):
+                        lit[s["p"]["l"]] = s["sp"]
+                        changed = True
+                t = bb["t"]
+                if t["k"] == "Call" and DEFAULTING.search(t.get("fn") or ""):
+                    if any(is_str_const(a) or op_local(a) in lit for a in t["args"][1:]) and t["d"]["l"] not in lit:
+                        lit[t["d"]["l"]] = t["sp"]
+                        changed = True
+        for bb in b.bbs:
+            for s in bb["st"]:
+                if s.get("k") == "A" and s["p"].get("pr") and b.locals[s["p"]["l"]]["ty"].startswith("&mut jaq_core::load::lex::Lexer<"):
+                    # assignment through self to a field
+                    nassign += 1
+                    r = s["r"]
+                    bad = (r["k"] in ("Use", "Cast") and (is_str_const(r["o"]) or op_local(r["o"]) in lit))
+                    sd.examined((j["def"], s["sp"]), True, {"fn": j["def"], "assigned_at": s["sp"], "from_literal": bool(bad)} if bad or nassign <= 2 else None)
+                    if bad:
+                        sd.violate(f"{j['def']}/literal-input", f"`{j['def']}` assigns a string literal to the lexer state: a later error at that position has a span outside the filter text and rendering the diagnostic panics", where=s["sp"])
+    rules.append(sd.finish())
+
     explanation = ("Three structural clauses of 'nothing crashes jaq': (a) forward taint dataflow over the MIR of all first-party functions proving numeric discipline on user numbers, "
                    "(b) a reviewed inventory of all panic sites so that any new way to panic is reported, (c) push/pop pairing of compile-time scopes on all paths. "
                    "Not decided: the arguments attached to inventory entries (index safety is argued, not computed), panics inside dependencies, stack/heap exhaustion.")
